@@ -9,6 +9,7 @@ package nsqd
 //@ fn gWriteFlags() int := 577
 
 //@ func writeSyncFile(fn string, data []byte) error
+//@   keeps gMarshals
 //@   props C06 C05
 //@   ensures[one-open] gfsOpens == old(gfsOpens) + 1 && gfsOpenName == fn
 //@   ensures[open-error-returned] gfsOpenErr != nil ==> result == gfsOpenErr && gfsWrites == old(gfsWrites) && gfsSyncs == old(gfsSyncs) && gfsCloses == old(gfsCloses)
@@ -36,6 +37,8 @@ package nsqd
 // the number of Topic.doPause / Channel.doPause calls that had completed when the most recent document was built
 //@ ghost gMetaSawTopicPauses int
 //@ ghost gMetaSawChanPauses int
+// (GetMetadata asks every topic IsPaused(), which records its answer in the lTPause* ghosts of zz_contracts_ltopic_verif.go)
+//@ ghostgroup gMetaCalls, lTPauseFor, lTPauseObs
 
 //@ func (n *NSQD) GetMetadata(ephemeral bool) *Metadata
 //@   props C06 C05
@@ -65,6 +68,7 @@ package nsqd
 // ---- the metadata file name ---------------------------------------------------------------------
 //@ fn gMetaFileOf(dataPath string) string := gJoin2(dataPath, "nsqd.dat")
 //@ func newMetadataFile(opts *Options) string
+//@   keeps gMarshals
 //@   props C06 C05
 //@   nochan
 //@   requires opts != nil
@@ -78,7 +82,7 @@ package nsqd
 //@   nochan
 //@   requires[locked-map] gTopicsOK(n)
 //@   ensures[document-is-GetMetadata-false] gMetaCalls == old(gMetaCalls) + 1 && gMetaOf == n && !gMetaEph
-//@   ensures[marshal-of-that-document] gMarshals == old(gMarshals) + 1 && dyntype(gMarshalArg) == typetag("*Metadata") && unbox(gMarshalArg, "*Metadata") == gMetaDoc
+//@   ensures[marshal-of-that-document] dyntype(gMarshalArg) == typetag("*Metadata") && unbox(gMarshalArg, "*Metadata") == gMetaDoc
 //@   ensures[marshal-error-returned] gMarshalErr != nil ==> result == gMarshalErr && gfsOpens == old(gfsOpens) && gfsRenames == old(gfsRenames)
 //@   ensures[at-most-one-file-opened] gfsOpens == old(gfsOpens) || gfsOpens == old(gfsOpens) + 1
 //@   ensures[never-opens-the-metadata-file] gfsOpens == old(gfsOpens) + 1 ==> gfsOpenName != gMetaFileOf(curOpts(n).DataPath)
@@ -176,7 +180,7 @@ package nsqd
 //@   ensures[read-error-returned] gReadErr != nil && !gIsNotExist(gReadErr) ==> result != nil && getTopicCalls == old(getTopicCalls)
 //@   ensures[never-writes] gfsOpens == old(gfsOpens) && gfsWrites == old(gfsWrites) && gfsRenames == old(gfsRenames)
 //@   ensures[loading-flag-reset] n.isLoading == 0
-//@   modifies kNotifies, kInitPQs, n.isLoading, gReads, gReadName, gReadData, gReadErr, n.topicMap, mapstore(map[string]*Topic), Topic.channelMap, mapstore(map[string]*Channel),
+//@   modifies kNotifies, kInitPQs, lGetChanCalls, lGotChan, lGotChanName, lGotChanTopic, lGotChanAuthSeq, lGotChanAuthOK, n.isLoading, gReads, gReadName, gReadData, gReadErr, n.topicMap, mapstore(map[string]*Topic), Topic.channelMap, mapstore(map[string]*Channel),
 //@        luNames, luErr, luTopic, luCount, luAddrs, watchCreated, startCount, startedTopic, startSawWatch,
 //@        getTopicCalls, gotTopic, gotTopicName, gotTopicAuthSeq, gotTopicAuthOK,
 //@        dqCalls, mapstore(map[MessageID]*Message), mapstore(map[MessageID]*pqueue.Item), Message.index, elems(*Message), elems(*pqueue.Item),
